@@ -1,0 +1,105 @@
+//! Verification hooks (compiled only with `--cfg rce_verif`).
+//!
+//! * an observer for every transposition-table insert made by the search,
+//! * a switch that empties the table before every probe (caching neutralised),
+//! * a poll counter that can simulate a `stop` landing at the k-th poll of the running flag,
+//! * labelled schedule points that sleep for an environment-configured time, so that a chosen
+//!   interleaving of the input thread and the search thread can be forced on the real binary,
+//! * read access to the private search state.
+#![allow(dead_code, clippy::all, clippy::pedantic, clippy::nursery)]
+
+use super::{Depth, Score, Search};
+use crate::board::transposition_table::{TTEntry, TRANSPOSITION_TABLE};
+use crate::board::{zkey::ZKey, Ply};
+use crate::evaluate::Evaluator;
+use std::sync::atomic::{AtomicBool, AtomicU64, Ordering};
+use std::sync::Mutex;
+use std::time::Instant;
+
+#[derive(Clone, Debug)]
+pub struct Write {
+    pub site: u8,
+    pub key: ZKey,
+    pub entry: TTEntry,
+    pub nodes: u64,
+    pub budget: Option<u64>,
+    pub running: bool,
+    pub ply: Depth,
+}
+
+pub static RECORDER: Mutex<Option<Vec<Write>>> = Mutex::new(None);
+pub static CACHE_OFF: AtomicBool = AtomicBool::new(false);
+/// 0 = never; k > 0 = the k-th poll of `is_running` finds the flag cleared
+pub static STOP_AT_POLL: AtomicU64 = AtomicU64::new(0);
+pub static POLLS: AtomicU64 = AtomicU64::new(0);
+
+pub fn on_insert(s: &Search, site: u8, key: ZKey, entry: TTEntry) {
+    if let Some(v) = RECORDER.lock().unwrap().as_mut() {
+        v.push(Write {
+            site,
+            key,
+            entry,
+            nodes: s.info.nodes,
+            budget: s.limits.nodes,
+            running: s.running.load(Ordering::Relaxed),
+            ply: s.info.depth,
+        });
+    }
+}
+
+pub fn before_probe() {
+    if CACHE_OFF.load(Ordering::Relaxed) {
+        TRANSPOSITION_TABLE.write().unwrap().clear();
+    }
+}
+
+pub fn on_poll(flag: &AtomicBool) {
+    let k = STOP_AT_POLL.load(Ordering::Relaxed);
+    if k > 0 {
+        let n = POLLS.fetch_add(1, Ordering::Relaxed) + 1;
+        if n == k {
+            flag.store(false, Ordering::Relaxed);
+        }
+    }
+}
+
+/// Sleeps `RCE_VERIF_DELAY_<label>` milliseconds if set; prints the label to stderr if `RCE_VERIF_TRACE` is set
+pub fn sched(label: &str) {
+    if std::env::var_os("RCE_VERIF_TRACE").is_some() {
+        eprintln!("sched {label}");
+    }
+    if let Ok(v) = std::env::var(format!("RCE_VERIF_DELAY_{label}")) {
+        if let Ok(ms) = v.parse::<u64>() {
+            std::thread::sleep(std::time::Duration::from_millis(ms));
+        }
+    }
+}
+
+pub fn best_move(s: &Search) -> Option<Ply> {
+    s.info.best_move
+}
+pub fn best_score(s: &Search) -> Option<Score> {
+    s.info.best_score
+}
+pub fn seldepth(s: &Search) -> Depth {
+    s.info.seldepth
+}
+pub fn board_key(s: &Search) -> ZKey {
+    s.board.zkey
+}
+pub fn root_key(s: &Search) -> ZKey {
+    s.original_board.zkey
+}
+
+pub fn alpha_beta_start(s: &mut Search, e: &impl Evaluator, depth: Depth) -> Ply {
+    s.alpha_beta_start(e, depth, Instant::now())
+}
+pub fn alpha_beta(s: &mut Search, e: &impl Evaluator, a: Score, b: Score, depth: Depth) -> Score {
+    s.alpha_beta(e, a, b, depth, Instant::now())
+}
+pub fn quiescence(s: &mut Search, e: &impl Evaluator, a: Score, b: Score) -> Score {
+    s.quiescence(e, a, b, Instant::now())
+}
+pub fn get_pv(s: &mut Search, len: Depth) -> Vec<Ply> {
+    s.get_pv(len)
+}
